@@ -14,12 +14,14 @@ static CC_StackIter it;      static int it_slot = -1;
 static CC_StackZipIter zit;  static int z1 = -1, z2 = -1;
 
 static int slot_default[NSLOT];   /* the object in the slot uses the C library allocator triple (built by cc_stack_new, or derived from such a stack) */
-static void shim_reset(void) { for (int i = 0; i < NSLOT; i++) { S[i] = NULL; slot_default[i] = 0; } it_slot = z1 = z2 = -1; }
+static int sparse, sweep_now = 1;   /* obs=sparse on the constructor line: no content sweep except in `observe` */
+static void shim_reset(void) { for (int i = 0; i < NSLOT; i++) { S[i] = NULL; slot_default[i] = 0; } it_slot = z1 = z2 = -1; sparse = 0; sweep_now = 1; }
 
 static bool pred_even(const void *e) { cb_record((void *)e); return VAL(e) % 2 == 0; }
 static void fn_visit(void *e) { cb_record(e); }
 
 static void obs_all(void) {
+    if (!sweep_now) return;      /* sparse session: status, out-values and callback log only */
     for (int k = 0; k < NSLOT; k++) {
         if (!S[k]) continue;
         char nm[8]; snprintf(nm, sizeof nm, " a%d", k);
@@ -84,6 +86,7 @@ static void do_op(Cmd *c) {
     if (is_op(c, "new") || is_op(c, "new_default")) {
         enum cc_stat st;
         shim_reset();
+        if (!strcmp(kv_str(c, "obs", ""), "sparse")) { sparse = 1; sweep_now = 0; }
         if (is_op(c, "new")) st = make(c, &S[0]);
         else { st = cc_stack_new(&S[0]); slot_default[0] = 1; }
         if (st != CC_OK) S[0] = NULL;
@@ -92,6 +95,8 @@ static void do_op(Cmd *c) {
     }
     int any = 0; for (int i = 0; i < NSLOT; i++) if (S[i]) any = 1;
     if (!any) { o("st=- nosession"); o_sep(); o("-"); return; }
+    sweep_now = !sparse;
+    if (is_op(c, "observe")) { sweep_now = 1; o("st=-"); obs_all(); o_sep(); phys(); return; }
     CC_Stack *s = S[k];
     void *out = PTR(777777);
     if (is_op(c, "destroy") || is_op(c, "destroy_cb")) {
